@@ -482,7 +482,8 @@ def _site_child(job):
 
 
 def _texts(t, se=None):
-    ks = [repr(t), f"S({t!r})"]
+    # (the third spelling builds a NEW plain str object at every evaluation: equal texts are not always one interned object)
+    ks = [repr(t), f"S({t!r})", f"str({t.encode()!r}, 'utf-8')"]
     if se:
         ks.append(f"SE.{se}")
     ks += [f"{t!r}.encode()", f"bytearray({t!r}.encode())", f"memoryview({t!r}.encode())"]
@@ -498,6 +499,7 @@ TEXT_CALLS = [
     ("typelib.unmarshal(datetime.date, K)", "dateparse", True),
     ("typelib.unmarshal(typing.Union[int, str], K)", "strload", True),
     ("typelib.unmarshal(typing.Optional[int], K)", "strload", True), ("typelib.unmarshal(SE, K)", "strload", True),
+    ("typelib.unmarshal(IE, K)", "strload", True), ("typelib.unmarshal(list[SE], [K, K])", "strload", True),
     ("typelib.unmarshal(bool, K)", "strload", True), ("typelib.unmarshal(typing.Literal['1', 1, None], K)", "strload", True),
     ("typelib.marshal(K)", None, True), ("typelib.encode(K)", None, True), ("typelib.decode(list[int], K)", None, True),
     ("typelib.decode(typing.Any, K)", None, True),
@@ -509,6 +511,8 @@ TEXT_GROUPS = [
     {"name": "text:word", "keys": _texts("abc", "word")}, {"name": "text:date", "keys": _texts("2020-01-02", "day")},
     {"name": "text:csv", "keys": _texts("1,2")}, {"name": "text:true", "keys": _texts("true", "true")},
     {"name": "text:1.0", "keys": _texts("1.0")},
+    # a text that is the NAME of a member of SE (and of IE), not a value: no routine may start to know it after having seen it once
+    {"name": "text:member-name", "keys": _texts("word")}, {"name": "text:member-name-2", "keys": _texts("one")},
 ]
 STR_ONLY_CALLS = [("serdes.dateparse(K, datetime.date)", "dateparse", True),
                   ("serdes.dateparse(K, datetime.datetime)", "dateparse", True),
